@@ -53,8 +53,8 @@ def St.heatCap (st : St) (p : Phase) : HeatCap Float :=
       | none => nan
     { I := look false, J := look true }
 
-def parsePhase? : String → Option Phase
-  | "s" => some .s | "l" => some .l | "g" => some .g | _ => none
+/-- phase labels as the handles resolve them (`S` and `L` are aliases of `s` and `l`) -/
+def parsePhase? (s : String) : Option Phase := phaseOfLabel s
 
 def parseOpt? (s : String) : Option (Option Float) :=
   if s == "none" then some none else (parseFloat? s).map some
